@@ -474,6 +474,8 @@ def judge(case, acc):
 
 def _reads_as_default_options(case):
     """Does the reader class give what the default options ('blank all', plain) would give for this sheet?"""
+    if (case["stop_on"], bool(case["ladder"])) == ("blank all", False):
+        return False                      # the class declares the defaults: nothing to ignore
     grid = make_grid(case)
     try:
         as_default, _ = X.reference_read(grid, RULESETS[case["rs"]], "blank all", False)
